@@ -812,6 +812,22 @@ def cache_invariant(run, twin=None):
                   clause='SourceModule.changed <=> current mtime != mtime recorded at creation (also when it went backwards)', path=path)
             s1 = m.scope
             prove('analysis-memoised-per-module-object', m.scope is s1, path=path)
+            # the package path of a directory is part of the disk state too: a directory that becomes a package between two requests
+            sub = os.path.join(d, 'pkg', 'sub')
+            os.makedirs(sub)
+            open(os.path.join(sub, '__init__.py'), 'w').close()
+            f2 = os.path.join(sub, 'mod.py')
+            open(f2, 'w').close()
+            lp = Pj.Project([d])
+            with lp.check_changes():
+                first = lp.norm_package('.x', f2)
+            open(os.path.join(d, 'pkg', '__init__.py'), 'w').close()
+            with lp.check_changes():
+                second = lp.norm_package('.x', f2)
+            fresh = Pj.Project([d]).norm_package('.x', f2)
+            prove('relative-names-follow-a-directory-that-became-a-package', (first, second) == ('sub.x', fresh) and fresh == 'pkg.sub.x',
+                  clause='after pkg/__init__.py is created a relative name resolves as a fresh project resolves it [%r then %r, fresh %r]' % (first, second, fresh),
+                  path=path)
         finally:
             import shutil
             shutil.rmtree(d, ignore_errors=True)
